@@ -291,7 +291,8 @@ WHOLE_THM = {
            "adjusted root; PurePath.stem modelled).",
     "C12": "Theorems/C12b: api_dict_lists (the eight top-level lists of API.to_dict are the tables sorted by id), "
            "api_file_lists_sorted_nodup (end to end: in the API file of every completed run they are strictly increasing, "
-           "schema version 1), entry_references.",
+           "schema version 1), entry_references, docstring_types_serialise, api_file_strings_valid (every string token of the file is a "
+           "valid RFC 8259 string literal, for every Python string).",
     "C15": "Theorems/C15b: tool_flag_irrelevant (end to end: without test/tests/docs directories the flag changes nothing of the "
            "run), tool_analysed_kept (every walked module is a discovered file or the __init__ of a discovered package).",
     "C03": "Theorems/C03b: tool_emission_log (end to end: the emission log of a completed run is exactly the module logs of the "
@@ -320,6 +321,8 @@ COMPOSED = {
     "C13": " COMPOSITION (Theorems/C13b): function_record, docstring_to_comment (the description-only comment of an element "
            "consists, line for line, of the lines of the description the parser extracted from the element's OWN docstring node), "
            "same_docstring_same_comment.",
+    "C11": " WHOLE TOOL (Theorems/C11b): tool_foreign_placeholders (in a completed run every registered class of another library is "
+           "written into the placeholder stub of its module).",
     "C04": " WHOLE TOOL (Theorems/C04b): moduleLog_top, tool_private_not_top_level (in a completed run a function or class the "
            "analysis marked private is never a top-level entry of a module's emission log).",
     "C07": " COMPOSITION (Theorems/C07b): annotated_none_stub (-> None: one API result, no result in the stub), "
